@@ -1,7 +1,7 @@
 """Template family for C02: a store -> load pair in front of every kind of consumer, for each variable
 scope (local, parameter, global) and type, plus casts of constants in each consumer.  These are the shapes the
 load-after-store and constant-cast optimisations rewrite."""
-from ..lang import (INT, FLOAT, IntLit, FloatLit, Var, Index, Field, Swizzle, Bin, Assign, Affix, Call, Construct, Decl,
+from ..lang import (INT, FLOAT, VOID, IntLit, FloatLit, Var, Index, Field, Swizzle, Bin, Assign, Affix, Call, Construct, Decl,
                     ExprStmt, Block, If, For, While, Do, Return, Func, Module, vec, arr, struct_t, mk_bin)
 
 F2 = vec(FLOAT, 2)
@@ -87,9 +87,41 @@ def cases():
                 consumers["swizzle_store"] = [Decl(F2, "v", Construct(F2, [F(1.0), F(2.0)])), store, ExprStmt(Assign("=", Swizzle(V("v", F2), "y"), x)),
                                               Return(B("+", Swizzle(V("v", F2), "y"), Swizzle(V("v", F2), "x")))]
                 consumers["cast_int_store"] = [Decl(INT, "k", I(3)), ExprStmt(Assign("=", x, B("*", V("k", INT), F(0.5)))), Return(B("+", x, V("k", INT)))]
+            # something between the store and the load that is *not* a variable access but changes the variable
+            bump = Func("bump", [], VOID, Block([ExprStmt(Assign("=", V("g", ty), B("+", V("g", ty), one)))]), False)
+            bumpv = Func("bumpv", [(ty, "v")], ty, Block([ExprStmt(Assign("=", V("g", ty), B("*", V("g", ty), two))), Return(B("+", V("v", ty), one))]), False)
+            if scope == "global":
+                consumers["call_between"] = [store, ExprStmt(Call("bump", [], VOID, bump)), Return(x)]
+                consumers["call_between_twice"] = [store, ExprStmt(Call("bump", [], VOID, bump)), ExprStmt(Call("bump", [], VOID, bump)), Return(B("+", x, x))]
+                consumers["call_value_between"] = [Decl(ty, "y"), store, ExprStmt(Assign("=", V("y", ty), Call("bumpv", [two], ty, bumpv))), Return(B("+", x, V("y", ty)))]
+                consumers["call_in_operand"] = [store, Return(B("+", Call("bumpv", [two], ty, bumpv), x))]
+            if scope == "local":
+                # the same name declared again in a sibling scope: the declaration resets it
+                consumers["sibling_redecl"] = [Decl(ty, "r"), Block([Decl(ty, "t", src)]), Block([Decl(ty, "t"), ExprStmt(Assign("=", V("r", ty), V("t", ty)))]),
+                                               Return(B("+", V("r", ty), x))]
+                consumers["sibling_redecl_loop"] = [Decl(ty, "r"), For(Decl(INT, "i", I(0)), B("<", V("i", INT), n), Affix("++", True, V("i", INT)),
+                                                                       Block([Decl(ty, "t"), ExprStmt(Assign("=", V("r", ty), B("+", V("r", ty), V("t", ty)))),
+                                                                              ExprStmt(Assign("=", V("t", ty), src))])), Return(V("r", ty))]
+            # narrowing stores (the oracle here is the unoptimised build, so the conversion rule itself is not judged)
+            if ty == INT:
+                at4 = arr(INT, [4])
+                # filled by a loop so that the int constants 2 and 3 do not otherwise occur in the function (IR constants
+                # are shared per type and value: an int literal 2 would mask a mis-typed folded 2.0)
+                fill = [Decl(at4, "t"), For(Decl(INT, "i", I(0)), B("<", V("i", INT), I(4)), Affix("++", True, V("i", INT)),
+                                            Block([ExprStmt(Assign("=", Index(V("t", at4), V("i", INT), INT), B("+", B("*", V("i", INT), I(10)), I(1))))]))]
+                consumers["narrow_literal_index"] = fill + [ExprStmt(Assign("=", x, F(2.0))), Return(B("+", Index(V("t", at4), x, INT), b))]
+                consumers["narrow_init_index"] = fill + [Decl(INT, "slot", F(3.0)), Return(B("+", Index(V("t", at4), V("slot", INT), INT), b))]
+                consumers["narrow_expr"] = fill + [ExprStmt(Assign("=", x, B("*", B("*", b, b), F(0.5)))), Return(B("+", Index(V("t", at4), B("%", B("*", x, x), I(4)), INT), x))]
+                consumers["narrow_const_arith"] = [ExprStmt(Assign("=", x, F(7.0))), Return(B("/", x, I(2)))]
+                consumers["narrow_const_index_vec"] = [Decl(vec(FLOAT, 4), "v", Construct(vec(FLOAT, 4), [F(0.5), F(1.5), F(2.5), F(3.5)])),
+                                                       ExprStmt(Assign("=", x, F(3.0))), Return(B("+", B("*", x, I(100)), I(0)))] 
             for cname, body in consumers.items():
                 params = [(ty, "a"), (ty, "b"), (INT, "n")]
                 fns = [h] if cname == "callarg" else []
+                if cname.startswith("call_between"):
+                    fns = [bump]
+                if cname in ("call_value_between", "call_in_operand"):
+                    fns = [bumpv]
                 fns.append(Func("f", params, ty, Block(pre + body), True))
                 m = Module(structs=S if cname == "store_field" else [], globals=gl, funcs=fns)
                 inputs = []
